@@ -76,6 +76,7 @@ def run(F, R, ctx):
            "next requirer compiles and evaluates the module again", cm.loc(), sample={"inserts": len(ins)})
     c06.rollback_rule(F, R, "C14.c")
     pruning_rule(F, R)
+    identity_rule(F, R)
     R.note("C14: decided are the cache-consultation, registration and rollback clauses only; which names a module graph "
            "exposes (provide / only-in / prefix-in / mangling) is not decided.")
 
@@ -118,3 +119,41 @@ def pruning_rule(F, R):
                "remove_unused_globals_with_prefix skips some macros when it collects the identifiers that macros refer to "
                "(line %s): an import that is used only inside the template of a provided macro is pruned, and a later "
                "evaluation that expands the macro fails with a free identifier" % b["line"], fn.loc(b["line"]), sample=True)
+
+
+def identity_rule(F, R):
+    R.rule("C14.e", "one file, one module: the paths that key the compiled-module / file-metadata tables are canonical — every "
+                    "construction of PathOrBuiltIn::Path (the path a require resolves to) takes its path from "
+                    "try_canonicalize / std::fs::canonicalize (or copies an existing one), and try_canonicalize runs "
+                    "std::fs::canonicalize on every path to its return. A path that keeps `..`, `./` or a symlink gives the "
+                    "same file two cache entries: its body is evaluated twice and the two requirers see different state")
+    n = 0
+    for name, fn in sorted(F.fns.items()):
+        if not name.startswith("steel::compiler::"):
+            continue
+        for i, _, e in fn.events("agg"):
+            if not (e[1] == "PathOrBuiltIn" and e[2] == "Path"):
+                continue
+            n += 1
+            key = "%s / PathOrBuiltIn::Path is built from a canonical path" % fn.short()
+            if re.search(r"\{impl Clone for PathOrBuiltIn\}::clone$", name):
+                R.inst("C14.e", key + " (copy)", True, sample=True, nontrivial=False)
+                continue
+            src = set()
+            for o in (e[4] if len(e) > 4 else []):
+                if o.startswith("_"):
+                    src |= lib.alias_sources(fn, o, depth=8)
+            prod = [cb["callee"] for _, cb in fn.calls()
+                    if cb.get("dest") and re.match(r"_\d+", cb["dest"]) and re.match(r"_\d+", cb["dest"]).group(0) in src]
+            ok = any(re.search(r"::try_canonicalize$|^std::fs::canonicalize$", c) for c in prod)
+            R.inst("C14.e", key, ok,
+                   "%s builds the path of a required module (line %s) from a value that did not come from try_canonicalize / "
+                   "std::fs::canonicalize: the module tables are keyed by that path, so two spellings of one file become two "
+                   "modules" % (fn.short(), e[3]), fn.loc(e[3]), sample={"producers": [lib.short_name(c) for c in prod][:4]})
+    R.floor("C14.e", "constructions of PathOrBuiltIn::Path", n, 3)
+    tc = F.one(r"^steel::compiler::modules::try_canonicalize$")
+    canon = [i for i, cb in tc.calls() if re.search(r"^std::fs::canonicalize$", cb["callee"])]
+    ok = bool(canon) and tc.every_path_passes_from([0], tc.returns(), canon)[0]
+    R.inst("C14.e", "try_canonicalize canonicalises on every path", ok,
+           "compiler::modules::try_canonicalize can return without calling std::fs::canonicalize: paths taken on that route "
+           "(e.g. absolute ones that still contain `..`) are used as module identities unnormalised", tc.loc(), sample=True)
